@@ -13,6 +13,7 @@ import (
 
 	"verifharness/internal/core"
 	"verifharness/internal/gen"
+	"verifharness/internal/util"
 )
 
 // C05: the shortcut pre-check never rejects a request the rule accepts.
@@ -346,7 +347,7 @@ func init() {
 	core.Register(&core.Prop{
 		ID:    "C05",
 		Level: "exploration",
-		Rule: "rules: regular-expression rules from a grammar (top-level and grouped alternation, nested groups, classes, escapes \\d \\w \\s \\b \\xHH, quantifiers * + {m,n}, some '?'), every regex rule of the bundled lists, and mask patterns; " +
+		Rule: "rules: regular-expression rules from a grammar (top-level and grouped alternation, nested groups, classes, escapes \\d \\w \\s \\b \\xHH, quantifiers * + {m,n}, some '?'), every regex rule of the bundled lists, mask patterns, and groups of rules whose whole texts collide under FastHash created one after the other; " +
 			"for each rule witness strings are synthesised by biased random walks over the regexp/syntax tree (other branch, zero repetitions, class boundaries, case flips) and near-miss edits, filtered by the rule's own compiled regexp (hook VerifPrepared); " +
 			"every accepted string must contain the shortcut after lower-casing and modifier-free rules must Match it; non-trivial = rule with a non-empty shortcut and at least one accepted witness; distinct by rule text",
 		Assumptions: []string{
@@ -362,6 +363,24 @@ func init() {
 			case idx < nReal:
 				c.Event("real_list_regex_rules", 1)
 				c05CheckRule(c, c05RealRegexRules[idx], w*4, false)
+			case idx%7 == 1:
+				// Twin rules whose whole texts collide under FastHash (a table or
+				// memo keyed by that hash must not mix them up), created one
+				// after the other in this process.
+				pre := []string{`/\/img\/banner_a`, `/\/ads\/topaz-b`, `/track(er|ing)_x`, "||cdn-a", "|https://static.ads-"}[c.Rng.Intn(5)]
+				suf := ".example.com^"
+				if pre[0] == '/' {
+					suf = []string{`\.gif/`, `[0-9]+\.js/`, `anner\.gif/`}[c.Rng.Intn(3)]
+				}
+				groups := gen.CollidingTails(pre)
+				if len(groups) == 0 {
+					return
+				}
+				g := groups[c.Rng.Intn(len(groups))]
+				for _, t := range util.Shuffle(c.Rng, g) {
+					c05CheckRule(c, pre+t+suf, w, true)
+				}
+				c.Event("hash_colliding_twin_groups", 1)
 			case idx%3 == 0:
 				s, _ := gen.RandomMaskSpec(c.Rng, gen.ModKinds{MatchCase: true}, 0.3)
 				s.Exception = false
